@@ -220,6 +220,7 @@ func here(cw *CodeWriter) gpos {
 //@   ensures [no-mapping@C08] cw.Mapper == nil || sourcemap.NumMappings(cw.Mapper) == old(sourcemap.NumMappings(cw.Mapper))
 //@   ensures [request-kept@C08] cw.deferred == old(cw.deferred)
 //@   ensures [written@C06] implies(len(s) > 0, !cw.semiOmitted) && implies(len(s) == 0, cw.semiOmitted == old(cw.semiOmitted))
+//@   ensures [empty@C06] implies(len(s) == 0, eq(cw.Builder, old(cw.Builder)) && cw.lastByte == old(cw.lastByte))
 
 // write = a separating space if needed, then (for a token) the requested mapping, then the text; the mapper advances
 // over the same text. The mapping therefore lies exactly at the first character of the token.
@@ -233,6 +234,7 @@ func here(cw *CodeWriter) gpos {
 //@   ensures [request-kept@C08] implies(!isToken, cw.deferred == old(cw.deferred))
 //@   ensures [request-used@C08] implies(isToken && cw.Mapper != nil, !cw.deferred.set)
 //@   ensures [written@C06] implies(len(s) > 0, !cw.semiOmitted) && implies(len(s) == 0, cw.semiOmitted == old(cw.semiOmitted))
+//@   ensures [empty@C06] implies(len(s) == 0, eq(cw.Builder, old(cw.Builder)) && cw.lastByte == old(cw.lastByte))
 
 // separateSigns writes a space exactly when the next token would fuse with the last byte written.
 //@ func (cw *CodeWriter) separateSigns(next)
@@ -386,14 +388,19 @@ func here(cw *CodeWriter) gpos {
 //@   ensures [request-used@C08] implies(cw.Mapper != nil, !cw.deferred.set)
 
 // Comments: compact output contains none; in pretty mode every write is comment text, "//", a space, a line break or
-// indentation, and the next token starts on a fresh line.
+// indentation, and the next token starts on a fresh line. Nothing is written in front of the first token or comment of
+// the output (the text is final as written: there is no clean-up pass afterwards).
 //@ func (cw *CodeWriter) WriteLeadingComments(comments)
 //@   props C15 C06 C08 C11
 //@   use cwFrame
 //@   loop 1 invariant [frame] cwInv(cw) && J(cw) && NoFusion(cw) && cw.IndentLevel == old(cw.IndentLevel) && cw.PrettyPrint && (cw.Mapper == nil || sourcemap.NumMappings(cw.Mapper) == old(sourcemap.NumMappings(cw.Mapper))) && cw.deferred == old(cw.deferred)
 //@   ensures [compact.none@C15] implies(!cw.PrettyPrint, eq(cw.Builder, old(cw.Builder)) && len(cw.pendings) == 0)
 //@   ensures [empty.none@C15] implies(len(comments) == 0, eq(cw.Builder, old(cw.Builder)) && eq(cw.pendings, old(cw.pendings)))
-//@   ensures [fresh-line@C15] implies(cw.PrettyPrint && len(comments) > 0, len(cw.pendings) == 2 && cw.pendings[0] == '\n' && cw.pendings[1] == '\t')
+//@   ensures [fresh-line@C15] implies(cw.PrettyPrint && len(comments) > 0 && cw.lastByte != 0, len(cw.pendings) == 2 && cw.pendings[0] == '\n' && cw.pendings[1] == '\t')
+//@   ensures [head@C08,C06] implies(cw.PrettyPrint && len(comments) > 0 && cw.lastByte == 0, len(cw.pendings) == 0)
+//@   loop 1 invariant [idx] iter()+1 <= len(comments)
+//@   loop 1 invariant [head.blank] implies(old(cw.lastByte) == 0 && forall(0, iter()+1, func(k int) bool { return len(comments[k]) == 0 }), eq(cw.Builder, old(cw.Builder)) && cw.lastByte == 0)
+//@   ensures [head.blank@C08,C06] implies(old(cw.lastByte) == 0 && forall(0, len(comments), func(k int) bool { return len(comments[k]) == 0 }), eq(cw.Builder, old(cw.Builder)) && cw.lastByte == 0)
 //@   ensures [indent] cw.IndentLevel == old(cw.IndentLevel)
 //@   ensures [no-mapping@C08] cw.Mapper == nil || sourcemap.NumMappings(cw.Mapper) == old(sourcemap.NumMappings(cw.Mapper))
 //@   ensures [request-kept@C08] cw.deferred == old(cw.deferred)
@@ -403,6 +410,11 @@ func here(cw *CodeWriter) gpos {
 // (layout calls ignored), the node's concrete syntax in source order: leading comments of a token, its mapping,
 // its text, children. They carry C01 (tokens re-emitted in order), C15 (comments of every stored token replayed once,
 // immediately before the token), C08 (mapping immediately before the token text) and C03 (parenthesisation).
+
+// isTrimOf: a is b without its trailing blank-line entries.
+func isTrimOf(a, b []string) bool {
+	return len(a) <= len(b) && forall(0, len(a), func(k int) bool { return a[k] == b[k] }) && forall(len(a), len(b), func(k int) bool { return b[k] == "" }) && (len(a) == 0 || a[len(a)-1] != "")
+}
 
 func slotWriteTo(n Node, cw *CodeWriter) {}
 func slotPrecedence(e Expression) int     { return 0 }
@@ -431,7 +443,12 @@ func slotPrecedence(e Expression) int     { return 0 }
 //@   loop 1 invariant [frame] cwInv(cw) && J(cw) && NoFusion(cw) && cw.IndentLevel == atEntry(cw.IndentLevel)
 //@   loop 1 before [syntax] traceSeq()
 //@   loop 1 each [syntax] traceSeq(evNode(p.Statements[iter()]))
-//@   ensures [syntax] traceSeq(evLC(p.EOF.LeadingComments))
+//@   loop 2 invariant [trim] len(comments) <= len(p.EOF.LeadingComments) && forall(0, len(comments), func(k int) bool { return comments[k] == p.EOF.LeadingComments[k] }) && forall(len(comments), len(p.EOF.LeadingComments), func(k int) bool { return p.EOF.LeadingComments[k] == "" })
+//@   loop 2 invariant [frame] cwInv(cw) && J(cw) && NoFusion(cw) && cw.IndentLevel == atEntry(cw.IndentLevel)
+//@   loop 2 decreases len(comments)
+//@   loop 2 each [syntax] traceSeq()
+//@   ensures [syntax] traceSeq(evLC(callArg[[]string]("(*CodeWriter).WriteLeadingComments", 0, 1)))
+//@   ensures [eof.comments@C15] isTrimOf(callArg[[]string]("(*CodeWriter).WriteLeadingComments", 0, 1), p.EOF.LeadingComments)
 
 //@ func (ls *LetStatement) WriteTo(cw)
 //@   props C01 C03 C06 C08 C15 C14 C11
